@@ -499,6 +499,8 @@ func runC11(c *Ctx) {
 	runLegacy(c, []string{"rebalance"}, c.Pick(4, 8), c.Pick(40, 120))
 	runLegacySignals(c)
 	runC11Extra(c)
+	// "reopened on the range of the most recent membership information": the membership objects keep the last announcement
+	runAnnouncementOrder(c)
 	// the whole client against the simulated node (real gocbcore agents; the node answers every CLOSE_STREAM and then sends the
 	// end of that stream): rebalance cycles, then documents and Close() as in C13
 	nw := c.Pick(4, 16)
